@@ -566,7 +566,7 @@ func main() {
 		return cache[tier]
 	}
 	drv.Main(drv.Property{
-		ID: "C15", Level: "model_checking", PanicIsViolation: true, MemLimitGB: 4,
+		ID: "C15", Level: "model_checking", PanicIsViolation: true, MemLimitGB: 12,
 		Rule:        "two-sorted grammar: pair trees over From(100+i, i) (i=1..3), nil, TakeWhile/DropWhile/Filter x 7 predicates on (key,value), Map x 3 functions of (key,value), Plus, Join x 5 functions (nil, From, two-element Plus, nil-if-value-odd, predicate-terminated TakeWhile / nil), FromSeq x 3 functions over plain seq trees; plain seq trees over FromSlice leaves, ToSeq x 3 functions over pair trees, seq.Filter, seq.Map. Every tree of depth <= 3 of both sorts, and depth 4 with every non-Plus root over all depth-3 operands and Plus with one operand of depth <= 2 (thorough: each of those depth-4 trees again under every non-Plus root, i.e. depth 5). Keys differ from values (100+i vs i) and every function is asymmetric in its arguments, so a swapped or mismatched key/value shows. Each tree is rebuilt for every evaluation and driven as a state machine: at position i (Key(),Value()) == ref[i], Next() == (i+1<len); ForEach with an error injected at every visit position. states = (tree, position) pairs, transitions = Next / visit steps; non-trivial = lists with at least 2 pairs",
 		Assumptions: []string{"iterators are not shared between trees; Next() is not called again after it returned false", "functions and values outside the alphabet are not covered"},
 		Cases: func(tier string) (int, func(int) string) {
